@@ -8,6 +8,16 @@ VERIF = os.path.dirname(os.path.dirname(os.path.abspath(__file__)))
 SEEDED = os.path.join(VERIF, 'seeded')
 
 NEEDS = {
+    'C10-r7m1': 'a numerically exact half turn (angle +-pi, the matrix -I) handed to rotation2DToEulerAngle',
+    'C10-r7m2': 'a float argument with a negative value (non-template float overload of between0And2Pi adds 2/pi)',
+    'C11-r7m1': 'an exactly diagonal xy covariance with var_y > var_x (ellipse fast path leaves the orientation at 0)',
+    'C11-r7m2': 'a twist covariance with a planar variance below 1e-9 (perfectly known component, robot at rest)',
+    'C12-r7m1': 'a weighted solve with a zero weight followed by another solve on the same object without refilling J and Y',
+    'C12-r7m2': 'two dRTdAngles() results alive at once (result returned by reference to a member)',
+    'C13-r7m1': 'interval form with an even number of cells on some axis (centres laid out from the middle cell)',
+    'C13-r7m2': 'symmetric form with 0.25 < frac(R/res) < 0.5 and a point near +R (own count with round())',
+    'C14-r7m1': 'one caster, two casts whose origins are different points of the same cell',
+    'C14-r7m2': 'an oblique ray that crosses no cell border along one axis (step from the indexes, tMax guarded by the direction)',
     'C01-r7m1': 'two toECEF results alive together on one converter (result returned by reference to a member buffer)',
     'C01-r7m2': 'longitude exactly 0 (prime meridian, Y == 0) or a Cartesian input with an exact zero X or Y',
     'C02-r7m1': 'anchor, toENU(P), setAnchor(B) without reset(), toENU(P) again (remembered last fix survives re-anchoring)',
